@@ -1,9 +1,9 @@
 (* C19 runner: decodes a case, runs the calculator model, encodes final state + spec verdicts. Executable only.
    case   = (id cfg alias fs fk dbin dbout aux)
    cfg    = (nc est std varz single dgm xvalid xv_est xv_std xv_varz neigh_only nbneigh matlc
-             mnvar mndim nndim nfex extra_ok iuids locate loctype nbsimu mode n has_in fixed)
+             mnvar mndim nndim nfex extra_ok iuids locate loctype nbsimu mode n has_in)
    nc     = (prefix varname qualifier locator loctype delim clean)
-   db     = (grid gdim nuid ((uid name (kind v)) ...) ((uid ...) x 29) lguard)   kind 0 Orig, 1 Cst, 2 Written
+   db     = (grid gdim nuid ((uid name (kind v)) ...) ((uid ...) x 29))   kind 0 Orig, 1 Cst, 2 Written
    result = (ok stage dbin' dbout' (perm_in perm_out temp_in temp_out) wf atomic_in atomic_out inv_in inv_out inv_in' inv_out' wf_success) *)
 From Coq Require Import List ZArith Bool.
 From Gst Require Import lib.Sx C19.Model C19.Calcs C19.Spec.
@@ -25,10 +25,10 @@ Definition asCol (s : sx) : option column :=
   end.
 Definition asDb (s : sx) : option db :=
   match s with
-  | L [g; I gd; I nu; cols; locs; lg] =>
-      match asB g, asListOf asCol cols, asListOf (asListOf asZ) locs, asB lg with
-      | Some g', Some c', Some l', Some lg' => Some (mkdb c' nu l' g' gd lg')
-      | _, _, _, _ => None
+  | L [g; I gd; I nu; cols; locs] =>
+      match asB g, asListOf asCol cols, asListOf (asListOf asZ) locs with
+      | Some g', Some c', Some l' => Some (mkdb c' nu l' g' gd)
+      | _, _, _ => None
       end
   | _ => None
   end.
@@ -45,11 +45,11 @@ Definition zb (z : Z) : bool := negb (z =? 0).
 Definition asCfg (s : sx) : option cfg :=
   match s with
   | L [nc; I est; I std; I varz; I single; I dgm; I xvalid; I xe; I xs; I xv; I no; I nbn; I matlc;
-       I mnvar; I mndim; I nndim; I nfex; I extra; iu; I locate; I loctype; I nbsimu; I mode; I n; I has_in; I fixed] =>
+       I mnvar; I mndim; I nndim; I nfex; I extra; iu; I locate; I loctype; I nbsimu; I mode; I n; I has_in] =>
       match asNc nc, asListOf asZ iu with
       | Some nc', Some iu' =>
           Some (mkcfg nc' (zb est) (zb std) (zb varz) single (zb dgm) (zb xvalid) xe xs xv (zb no) nbn matlc
-                      mnvar mndim nndim nfex (zb extra) iu' (zb locate) loctype nbsimu mode n (zb has_in) (zb fixed))
+                      mnvar mndim nndim nfex (zb extra) iu' (zb locate) loctype nbsimu mode n (zb has_in))
       | _, _ => None
       end
   | _ => None
@@ -60,7 +60,7 @@ Definition ofContent (v : content) : sx :=
   match v with Orig k => L [I 0; I k] | Cst k => L [I 1; I k] | Written k => L [I 2; I k] end.
 Definition ofCol (c : column) : sx := L [I (c_uid c); ofStr (c_name c); ofContent (c_val c)].
 Definition ofDb (d : db) : sx :=
-  L [ofB (d_grid d); I (d_gdim d); I (d_nuid d); ofList ofCol (d_cols d); ofList (ofList I) (d_locs d); ofB (d_lguard d)].
+  L [ofB (d_grid d); I (d_gdim d); I (d_nuid d); ofList ofCol (d_cols d); ofList (ofList I) (d_locs d)].
 
 Definition run (c : sx) : sx :=
   match c with
